@@ -54,6 +54,19 @@ func (bs *blockState) assumeG(t string) {
 }
 
 func (bs *blockState) assertG(name, class, term, src string, ins ssa.Instruction) {
+	if (class == "nil" || class == "bounds" || class == "div") && bs.e.spec != nil && bs.e.spec.MayPanic && term != "true" && !bs.e.inRaise {
+		// the contract allows a panic: the failing case is an exceptional exit that must establish ensures_on_panic
+		e := bs.e
+		xg := bs.namedGuard(and(bs.g, not(term)))
+		xs := &blockState{e: e, b: bs.b, g: xg, st: bs.st.clone()}
+		pv := e.freshVal("rtpanic", types.NewInterfaceType(nil, nil))
+		e.assume(xg, and(not(eq(pv.C[0], "0")), not(eq(pv.C[0], e.tagByName("*res.Error")))))
+		xs.raise(pv, "run-time panic: "+src, ins)
+		ng := e.fresh("g", SBool)
+		e.def(eq(ng, and(bs.g, term)))
+		bs.g = ng
+		return
+	}
 	bs.e.assert(bs.g, name, class, term, src+" @"+bs.where(ins), bs.posOf(ins))
 	// later code may assume the check passed (execution would have panicked otherwise)
 	if term != "true" {
@@ -102,6 +115,9 @@ func (bs *blockState) val(v ssa.Value) Val {
 	}
 	if r, ok := e.regs[v]; ok {
 		return r
+	}
+	if lv, ok := e.addrs[v]; ok && lv.kind == "ptr" {
+		return Val{v.Type(), []string{lv.obj}}
 	}
 	unsupp("value %s (%T) has no encoding", v.Name(), v)
 	return Val{}
@@ -280,9 +296,23 @@ func (bs *blockState) alloc(x *ssa.Alloc) {
 	// heap allocation: fresh reference with zeroed contents
 	r := e.allocRef(bs.st, bs.g, x.Name())
 	e.regs[x] = Val{x.Type(), []string{r}}
+	if _, isArr := t.Underlying().(*types.Array); isArr {
+		return // backing array of a variadic call: elements are written before use
+	}
 	e.storePtr(bs.st, t, r, zeroVal(t))
+	if isPrivateCell(x) {
+		e.privateCells = append(e.privateCells, x)
+	}
 	if x.Comment != "" {
-		// expose escaping locals by name too (value read through the heap)
+		found := false
+		for _, a := range e.cellName[x.Comment] {
+			if a == x {
+				found = true
+			}
+		}
+		if !found {
+			e.cellName[x.Comment] = append(e.cellName[x.Comment], x)
+		}
 		e.heapLocals(x)
 	}
 }
@@ -336,6 +366,21 @@ func globalKey(g *ssa.Global, j int) string { return fmt.Sprintf("g:%s.%s:%d", g
 func (e *Enc) loadGlobal(st *State, g *ssa.Global) Val {
 	t := g.Type().Underlying().(*types.Pointer).Elem()
 	v := Val{T: t}
+	if !e.W.MutableGlobals[g] {
+		// initialised once, never assigned: a constant; pointers to composite literals are non-nil
+		for j, so := range flatten(t) {
+			name := "GC." + g.Pkg.Pkg.Name() + "." + g.Name() + fmt.Sprintf(".%d", j)
+			if _, ok := e.sorts["decl:"+name]; !ok {
+				e.sorts["decl:"+name] = so
+				e.decl(name, so)
+				if _, isPtr := t.Underlying().(*types.Pointer); isPtr && globalInitNonNil(g) {
+					e.def(app("<", "0", name))
+				}
+			}
+			v.C = append(v.C, name)
+		}
+		return v
+	}
 	for j, so := range flatten(t) {
 		v.C = append(v.C, e.heapKey(st, globalKey(g, j), so))
 	}
@@ -487,7 +532,13 @@ func (bs *blockState) equal(a, b Val, t types.Type, ins ssa.Instruction) string 
 		}
 		return eq(b.C[0], "0")
 	case *types.Interface:
-		// comparison with nil, or of two interface values (tag and payload)
+		// comparison with nil is a test of the type tag; otherwise tag and payload
+		if isNilVal(ins, 1) {
+			return eq(a.C[0], "0")
+		}
+		if isNilVal(ins, 0) {
+			return eq(b.C[0], "0")
+		}
 		return and(eq(a.C[0], b.C[0]), eq(a.C[1], b.C[1]))
 	case *types.Struct:
 		return valEq(a, b)
@@ -587,6 +638,20 @@ func (bs *blockState) slice(x *ssa.Slice) {
 		}
 		bs.assertG(fmt.Sprintf("slice.%d", e.ordinal("slice")), "bounds", and(app("<=", "0", lo), app("<=", lo, hi), app("<=", hi, mx)), "slice bounds", x)
 		bs.setReg(x, Val{x.Type(), []string{b.C[0], add(b.C[1], lo), sub(hi, lo), sub(mx, lo)}})
+		return
+	}
+	if at, ok := isArrayPtr(t); ok {
+		b := bs.val(x.X)
+		n := fmt.Sprint(at.Len())
+		lo, hi := "0", n
+		if x.Low != nil {
+			lo = bs.val(x.Low).C[0]
+		}
+		if x.High != nil {
+			hi = bs.val(x.High).C[0]
+		}
+		bs.assertG(fmt.Sprintf("slice.%d", e.ordinal("slice")), "bounds", and(app("<=", "0", lo), app("<=", lo, hi), app("<=", hi, n)), "array slice bounds", x)
+		bs.setReg(x, Val{x.Type(), []string{b.C[0], lo, sub(hi, lo), sub(n, lo)}})
 		return
 	}
 	unsupp("slice of %s", t)
@@ -745,4 +810,77 @@ func (bs *blockState) raise(pv Val, why string, ins ssa.Instruction) {
 		e.panics = append(e.panics, edge{guard: bs.g, st: bs.st.clone(), pv: pv, from: bs.b})
 	}
 	bs.dead = true
+}
+
+// isPrivateCell: an escaping local whose address only flows into loads, stores and closures
+// created by the same function (which do not assign it: checked on the closure bodies).
+func isPrivateCell(a *ssa.Alloc) bool {
+	if a.Referrers() == nil {
+		return false
+	}
+	for _, r := range *a.Referrers() {
+		switch x := r.(type) {
+		case *ssa.Store:
+			if x.Val == ssa.Value(a) {
+				return false
+			}
+		case *ssa.UnOp, *ssa.DebugRef:
+		case *ssa.MakeClosure:
+			fn := x.Fn.(*ssa.Function)
+			for i, b := range x.Bindings {
+				if b == ssa.Value(a) && closureWrites(fn, fn.FreeVars[i]) {
+					return false
+				}
+			}
+		default:
+			return false
+		}
+	}
+	return true
+}
+
+func closureWrites(fn *ssa.Function, fv *ssa.FreeVar) bool {
+	if fv.Referrers() == nil {
+		return false
+	}
+	for _, r := range *fv.Referrers() {
+		switch x := r.(type) {
+		case *ssa.UnOp, *ssa.DebugRef:
+		case *ssa.Store:
+			return true
+		case *ssa.MakeClosure:
+			inner := x.Fn.(*ssa.Function)
+			for i, b := range x.Bindings {
+				if b == ssa.Value(fv) && closureWrites(inner, inner.FreeVars[i]) {
+					return true
+				}
+			}
+		default:
+			return true
+		}
+	}
+	return false
+}
+
+// globalInitNonNil: the package initialiser stores the address of a fresh object into g.
+func globalInitNonNil(g *ssa.Global) bool {
+	init := g.Pkg.Func("init")
+	if init == nil {
+		return false
+	}
+	for _, b := range init.Blocks {
+		for _, ins := range b.Instrs {
+			if s, ok := ins.(*ssa.Store); ok && s.Addr == ssa.Value(g) {
+				switch v := s.Val.(type) {
+				case *ssa.Alloc:
+					return true
+				case *ssa.MakeClosure, *ssa.Function:
+					return true
+				default:
+					_ = v
+				}
+			}
+		}
+	}
+	return false
 }
